@@ -18,8 +18,8 @@ int compare_icase(const char* a, const char* b)
 {
     while (*a != 0 && *b != 0)
     {
-        int ca = to_lower(*a++);
-        int cb = to_lower(*b++);
+        int ca = static_cast<unsigned char>(to_lower(*a++));
+        int cb = static_cast<unsigned char>(to_lower(*b++));
 
         if (ca == cb)
             continue;
@@ -29,9 +29,9 @@ int compare_icase(const char* a, const char* b)
     }
 
     if (*a == 0 && *b != 0)
-        return +1;
-    if (*a != 0 && *b == 0)
         return -1;
+    if (*a != 0 && *b == 0)
+        return +1;
     return 0;
 }
 
@@ -41,8 +41,8 @@ int compare_icase(const char* a, tlx::string_view b)
 
     while (*a != 0 && bi != b.end())
     {
-        int ca = to_lower(*a++);
-        int cb = to_lower(*bi++);
+        int ca = static_cast<unsigned char>(to_lower(*a++));
+        int cb = static_cast<unsigned char>(to_lower(*bi++));
 
         if (ca == cb)
             continue;
@@ -52,9 +52,9 @@ int compare_icase(const char* a, tlx::string_view b)
     }
 
     if (*a == 0 && bi != b.end())
-        return +1;
-    if (*a != 0 && bi == b.end())
         return -1;
+    if (*a != 0 && bi == b.end())
+        return +1;
     return 0;
 }
 
@@ -64,8 +64,8 @@ int compare_icase(tlx::string_view a, const char* b)
 
     while (ai != a.end() && *b != 0)
     {
-        int ca = to_lower(*ai++);
-        int cb = to_lower(*b++);
+        int ca = static_cast<unsigned char>(to_lower(*ai++));
+        int cb = static_cast<unsigned char>(to_lower(*b++));
 
         if (ca == cb)
             continue;
@@ -75,9 +75,9 @@ int compare_icase(tlx::string_view a, const char* b)
     }
 
     if (ai == a.end() && *b != 0)
-        return +1;
-    if (ai != a.end() && *b == 0)
         return -1;
+    if (ai != a.end() && *b == 0)
+        return +1;
     return 0;
 }
 
@@ -88,8 +88,8 @@ int compare_icase(tlx::string_view a, tlx::string_view b)
 
     while (ai != a.end() && bi != b.end())
     {
-        int ca = to_lower(*ai++);
-        int cb = to_lower(*bi++);
+        int ca = static_cast<unsigned char>(to_lower(*ai++));
+        int cb = static_cast<unsigned char>(to_lower(*bi++));
 
         if (ca == cb)
             continue;
@@ -99,9 +99,9 @@ int compare_icase(tlx::string_view a, tlx::string_view b)
     }
 
     if (ai == a.end() && bi != b.end())
-        return +1;
-    if (ai != a.end() && bi == b.end())
         return -1;
+    if (ai != a.end() && bi == b.end())
+        return +1;
     return 0;
 }
 
